@@ -5,6 +5,7 @@
 From Coq Require Import NArith ZArith List Uint63 Bool.
 From Coq.Strings Require Import Byte.
 From LOF Require Export Corr.Common Model.Build.
+From LOF Require Export Corr.Pkt.   (* the record kinds of package protocol: [prec], [model_rt] *)
 From LOF Require Import Base.Bytes Base.Res Model.Wire Model.Proto.
 Import ListNotations.
 Open Scope N_scope.
@@ -12,13 +13,15 @@ Open Scope N_scope.
 Inductive erec :=
 | EMsg (xid : N) (m : mrec) | EAct (a : arec) | EMf (f : mfrec) | EInstr (i : irec)
 | EBucket (b : brec) | EMatch (fs : list mfrec)
-| EPkt (first : list byte).   (* an Ethernet frame, given by its first encoding (package protocol has no recipe model) *)
+| EPkt (first : list byte)    (* an Ethernet frame, given by its first encoding (package protocol has no recipe model) *)
+| ERec (p : prec).            (* a value of a record kind of package protocol (Model/Proto2.v) *)
 
 Definition model_of (e : erec) : tree :=
   match e with
   | EMsg x m => build_m x m | EAct a => build_a a | EMf f => build_mf f | EInstr i => build_i i
   | EBucket b => build_b b | EMatch fs => build_match fs
   | EPkt b => match dec_eth b with Ok t => t | _ => T KRaw [VB b] [] end
+  | ERec _ => T KRaw [VB []] []      (* not used: record kinds are replayed by [replay_rec] *)
   end.
 
 Fixpoint bytes_eqb (a b : list byte) : bool :=
@@ -58,8 +61,16 @@ Definition no_panic (rs : list obs) : bool :=
   forallb (fun o => match o with OLen oc _ => Uint63.eqb oc 0 | OBytes oc _ => Uint63.eqb oc 0 end) rs.
 
 (* run a case with a property-specific oracle over what the implementation produced *)
+(* record kinds: sizing and encoding are pure functions of the value *)
+Definition replay_rec (p : prec) (rs : list obs) : bool :=
+  let '(e, l, _) := model_rt p in
+  forallb (fun o => match o with
+                    | OLen oc n => Uint63.eqb oc 0 && (negb (has_len p) || N.eqb l (n_of n))
+                    | OBytes oc bs => Uint63.eqb oc 0 && match e with Ok b => bytes_eqb b (unpack bs) | _ => false end
+                    end) rs.
 Definition check_with (oracle : caseE -> bool) (c : caseE) : verdict :=
   match c with
+  | Enc (ERec p) rs hs kids => mkv (replay_rec p rs) (oracle c)
   | Enc e rs hs kids => mkv (replay (model_of e) rs) (oracle c)
   end.
 
@@ -173,7 +184,7 @@ Definition spec_of (e : erec) (b : list byte) : option tree :=
   | EInstr _ => whole (sdec_instr b)
   | EBucket _ => whole (sdec_bucket b)
   | EMatch _ => whole (sdec_match b)
-  | EPkt _ => None
+  | EPkt _ | ERec _ => None
   end.
 
 Definition oracle02 (c : caseE) : bool :=
@@ -222,7 +233,7 @@ Definition thm_hyp (c : caseE) : bool :=
     match e with
     | EMsg x m => msg_ok m && (x <? 4294967296)%N
     | EAct a => act_ok a | EMf f => mf_ok f | EInstr i => instr_ok i | EBucket b => bucket_ok b | EMatch fs => match_ok fs
-    | EPkt _ => false
+    | EPkt _ | ERec _ => false
     end
   end.
 Definition count_hyp {C} (p : C -> bool) (cs : list (int * C)) : nat * nat :=
